@@ -83,6 +83,15 @@ struct Arm {
     states: Vec<usize>,
     tls: Vec<Tl>,
     bracketed: bool,
+    /// a comma after the last timeline inside the brackets (the style of the project's README)
+    bracket_trailing_comma: bool,
+    /// (timeline, keyframe, field) whose value is written as the call `tock()` in the macro: a
+    /// counter that tells how often the arm's expressions are evaluated. "A | B => ..." installs
+    /// the *same* timeline for each listed state, so once - the builder twin uses the literal 1.
+    counted_value: Option<(usize, usize, usize)>,
+    /// same position, written as `default_values.n` where `default_values` is a variable of the
+    /// *user* (holding n = 77) in scope of the macro call: the builder twin uses the literal 77.
+    user_variable: Option<(usize, usize, usize)>,
 }
 
 struct Animator {
@@ -509,10 +518,48 @@ fn gen_animator(rng: &mut Rng) -> Animator {
             }
         }
         used_states.extend(states.iter().copied());
+        let bracket_trailing_comma = bracketed && rng.chance(0.35);
+        if bracket_trailing_comma {
+            features.push("trailing-comma-inside-brackets");
+        }
+        // a keyframe that sets `n` explicitly can have that value written as an expression
+        let mut tls = tls;
+        let mut n_sites: Vec<(usize, usize, usize)> = Vec::new();
+        for (ti, t) in tls.iter().enumerate() {
+            for (ki, k) in t.kfs.iter().enumerate() {
+                if let Body::Fields(fs) = &k.body {
+                    for (fi, (f, _)) in fs.iter().enumerate() {
+                        if *f == 2 {
+                            n_sites.push((ti, ki, fi));
+                        }
+                    }
+                }
+            }
+        }
+        let mut counted_value = None;
+        let mut user_variable = None;
+        if !n_sites.is_empty() && rng.chance(0.3) {
+            let site = n_sites[rng.usize_below(n_sites.len())];
+            let value = if rng.chance(0.5) && !features.iter().any(|f| f.starts_with("counted-keyframe-value")) {
+                counted_value = Some(site);
+                features.push(if states.len() > 1 { "counted-keyframe-value-in-multi-state-arm" } else { "counted-keyframe-value" });
+                "1"
+            } else {
+                user_variable = Some(site);
+                features.push("user-variable-named-like-a-macro-local");
+                "77"
+            };
+            if let Body::Fields(fs) = &mut tls[site.0].kfs[site.1].body {
+                fs[site.2].1 = value.to_string();
+            }
+        }
         arms.push(Arm {
             states,
             tls,
             bracketed,
+            bracket_trailing_comma,
+            counted_value,
+            user_variable,
         });
     }
     if free.len() > 0 {
@@ -599,17 +646,23 @@ fn render_macro(a: &Animator) -> String {
                 .map(|st| format!("MSt::S{st}"))
                 .collect::<Vec<_>>()
                 .join(" | ");
+            // the macro text writes the marked value as an expression
+            let mut tls: Vec<Tl> = arm.tls.clone();
+            for (site, text) in [(arm.counted_value, "tock()"), (arm.user_variable, "default_values.n")] {
+                if let Some((ti, ki, fi)) = site {
+                    if let Body::Fields(fs) = &mut tls[ti].kfs[ki].body {
+                        fs[fi].1 = text.to_string();
+                    }
+                }
+            }
             let body = if arm.bracketed {
                 format!(
-                    "[\n        {}\n    ]",
-                    arm.tls
-                        .iter()
-                        .map(render_tl_macro)
-                        .collect::<Vec<_>>()
-                        .join(",\n        ")
+                    "[\n        {}{}\n    ]",
+                    tls.iter().map(render_tl_macro).collect::<Vec<_>>().join(",\n        "),
+                    if arm.bracket_trailing_comma { "," } else { "" }
                 )
             } else {
-                render_tl_macro(&arm.tls[0])
+                render_tl_macro(&tls[0])
             };
             format!("    {states} => {body}")
         })
@@ -731,6 +784,11 @@ fn main() {
         let bld = render_builder(&a);
         let _ = writeln!(out, "#[allow(clippy::all)]\nfn pair_{i}() -> (BoxedAnimator, BoxedAnimator) {{");
         let _ = writeln!(out, "    reset_tick();");
+        if a.arms.iter().any(|arm| arm.user_variable.is_some()) {
+            // a variable of the caller that happens to be named like a local of the expansion
+            let _ = writeln!(out, "    let default_values = MVals {{ a: 0.0, b: 0.0, n: 77, k: 0 }};");
+            let _ = writeln!(out, "    let _ = &default_values;");
+        }
         let _ = writeln!(out, "    let from_macro = {mac};");
         let _ = writeln!(out, "    let from_builder = {bld};");
         let _ = writeln!(out, "    (Box::new(from_macro), Box::new(from_builder))\n}}");
